@@ -321,9 +321,11 @@ pub fn ws_lockstep_case(rt: &tokio::runtime::Runtime, compressed: bool, rounds: 
             let (mut tx, mut rx) = ws.split();
             let mut sent = 0usize; let mut replies = 0usize; let mut done = 0usize;
             'rounds: for _ in 0..rounds {
-                let mut m = vec![]; for _ in 0..37 { m.extend_from_slice(&ka2); }
+                // 37 frames: keep-alives and, at positions that differ from round to round, TINY_NONE packets with request ids 1..37 (not keep-alives):
+                // the head of a message never looks like its tail
+                let mut m = vec![]; let mut kas = 0; for j in 0..37usize { if (j * j + done) % 3 == 0 { m.extend_from_slice(&raw_frame(compressed, 3, j as u8 + 1, &[0])); } else { m.extend_from_slice(&ka2); kas += 1; } }
                 if tx.send(Message::Binary(m)).await.is_err() { break; }
-                sent += 37;
+                sent += kas;
                 while replies < sent { match tokio::time::timeout(Duration::from_millis(1500), rx.next()).await { Ok(Some(Ok(Message::Binary(b)))) => { replies += b.len() / ka2.len().max(1); }, Ok(Some(Ok(_))) => {}, _ => break 'rounds } }
                 done += 1;
             }
@@ -334,11 +336,18 @@ pub fn ws_lockstep_case(rt: &tokio::runtime::Runtime, compressed: bool, rounds: 
         let _ = tcp.set_nodelay(true);
         let (ws, _) = tokio_tungstenite::client_async("ws://127.0.0.1/connect", MaybeTlsStream::Plain(tcp)).await.unwrap();
         let mut f = AFramed::new(Box::new(WebsocketStream::from(ws)), Codec::new(mode_of(compressed)));
-        let mut handed = 0usize; let mut last = std::time::Instant::now();
-        loop { match tokio::time::timeout(Duration::from_micros(cancel_us.unwrap_or(3_000_000)), f.read()).await { Ok(Ok(p)) => { last = std::time::Instant::now(); if p.maybe_pong().is_some() { handed += 1; } }, Ok(Err(_)) => break, Err(_) => if last.elapsed() > Duration::from_secs(3) { break; } } }
+        let mut handed = 0usize; let mut last = std::time::Instant::now(); let (mut round, mut pos, mut order_ok) = (0usize, 0usize, true);
+        loop { match tokio::time::timeout(Duration::from_micros(cancel_us.unwrap_or(3_000_000)), f.read()).await { Ok(Ok(p)) => { last = std::time::Instant::now();
+                // every packet in the position the peer put it
+                let want_ka = (pos * pos + round) % 3 != 0; let is_ka = p.maybe_pong().is_some();
+                let reqi_ok = match &p { Packet::Tiny(t) => is_ka || t.reqi.0 as usize == pos + 1, _ => false };
+                if want_ka != is_ka || !reqi_ok { order_ok = false; }
+                pos += 1; if pos == 37 { pos = 0; round += 1; }
+                if is_ka { handed += 1; } }, Ok(Err(_)) => break, Err(_) => if last.elapsed() > Duration::from_secs(3) { break; } } }
         drop(f);
         let (sent, replies, done) = server.await.unwrap_or((0, 0, 0));
-        (sent, handed, replies, done)
+        // packets out of place count as a keep-alive mismatch for the callers
+        (sent, if order_ok { handed } else { handed + 1_000_000 }, replies, done)
     })
 }
 
